@@ -357,3 +357,46 @@ Proof.
   - apply Nat.leb_le. exact E.
   - apply Nat.ltb_lt. lia.
 Qed.
+
+(* reading of the boolean inner-ring reference ir_ok (used on the Go results) in Prop: it is the
+   conclusion of update_inner_ring_full *)
+Theorem ir_ok_spec ir fs alpha newir :
+  ir_ok ir fs alpha newir = true ->
+  NoDup newir /\
+  forall z, In z newir <-> (In z ir /\ ~ (In z fs /\ ~ In z alpha)) \/ (In z alpha /\ ~ In z fs).
+Proof.
+  unfold ir_ok. rewrite andb_true_iff. intros [H1 H2]. apply nodupb_spec in H1. split; [exact H1|].
+  unfold list_nat_eqb in H2. destruct (list_eq_dec Nat.eq_dec (sort newir) (ir_expected ir fs alpha)) as [E|]; [|discriminate].
+  intros z. rewrite <- (sort_In z newir), E. unfold ir_expected. rewrite sort_In, in_app_iff, !filter_In. cbv beta.
+  destruct (mem z fs) eqn:Ef; destruct (mem z alpha) eqn:Ea; destruct (mem z ir) eqn:Ei;
+    try apply mem_In in Ef; try apply mem_In in Ea; try apply mem_In in Ei;
+    try apply mem_false in Ef; try apply mem_false in Ea; try apply mem_false in Ei;
+    simpl; intuition congruence.
+Qed.
+
+(* ---- end to end: what processAlphabetSync computes (pipeline = newAlphabetList, then
+   updateInnerRing with before = the sorted current alphabet, then sort) ------------------------ *)
+Theorem pipeline_all fs mn ir :
+  NoDup fs -> NoDup mn -> NoDup ir -> incl fs ir -> 0 < length fs <= length mn ->
+  match pipeline fs mn ir with
+  | (Unchanged, None) => unchanged_cond fs mn
+  | (Proposed a, Some l) =>
+      ~ unchanged_cond fs mn /\ alpha_spec fs mn a /\ NoDup l /\
+      forall z, In z l <-> (In z ir /\ ~ (In z fs /\ ~ In z a)) \/ (In z a /\ ~ In z fs)
+  | _ => False
+  end.
+Proof.
+  intros Hfs Hmn Hir Hincl Hl. unfold pipeline, pipeline_with.
+  pose proof (new_alphabet_list_all fs mn Hfs Hmn) as H.
+  destruct (new_alphabet_list fs mn) as [| | |a]; try lia.
+  - exact (proj2 H).
+  - destruct H as (_ & Hn & Hs). pose proof Hs as (S1 & S2 & _).
+    destruct (update_inner_ring_full ir (sort fs) a) as (l & El & Hnd & Hmem).
+    + rewrite sort_length. symmetry. exact S1.
+    + apply sort_NoDup. exact Hfs.
+    + exact S2.
+    + exact Hir.
+    + intros x Hx. apply Hincl. apply (proj1 (sort_In _ _)). exact Hx.
+    + rewrite El. split; [exact Hn|]. split; [exact Hs|]. split; [apply sort_NoDup; exact Hnd|].
+      intros z. rewrite sort_In, Hmem, !sort_In. reflexivity.
+Qed.
